@@ -149,6 +149,15 @@ impl FixtureDatabase {
             return;
         }
 
+        // The scan's walk skips the cleanup because the files it meets are new to the index.
+        // One that is not (a notification followed an import to it before the walk got
+        // there) is analysed with cleanup, or its records would be there twice.
+        let cleanup_previous = cleanup_previous
+            || (from_disk
+                && (self.file_definitions.contains_key(&file_path)
+                    || self.imports.contains_key(&file_path)
+                    || self.usages.contains_key(&file_path)));
+
         self.analyze_file_unlocked(file_path, content, cleanup_previous);
     }
 
